@@ -33,7 +33,12 @@ def _case(draw):
     for i in range(nsteps):
         if draw(st.integers(0, 2)) == 0:
             ops.append({'op': 'eval', 'seed': draw(st.integers(0, 999))})
-        ops.append({'op': 'train', 'seed': draw(st.integers(0, 999))})
+        op = {'op': 'train', 'seed': draw(st.integers(0, 999))}
+        if draw(st.integers(0, 3)) == 0:
+            # an eval-mode forward + input-gradient (saliency / validation) pass in the MIDDLE of the iteration: after micro-batch
+            # number eval_mid (taken modulo accumulation_steps), i.e. between micro-batches or between the last backward and step()
+            op['eval_mid'] = draw(st.integers(0, 2))
+        ops.append(op)
     if draw(st.booleans()):
         ops.append({'op': 'eval', 'seed': draw(st.integers(0, 999))})
     method = draw(st.sampled_from(['eigen', 'eigen', 'inverse']))
@@ -48,7 +53,19 @@ def _case(draw):
             'accum': draw(st.sampled_from([1, 1, 2, 3])), 'program': ops}
 
 
-def _kfac_only_run(case, program, kw):
+def _mid_eval(models, case, seed, pd):
+    """Eval-mode forward and gradient w.r.t. the INPUT only (parameter .grad untouched) on each model; back to train mode."""
+    import torch
+    from vkit import kmodel
+    for m in models:
+        m.eval()
+        x = kmodel.make_input(case['spec'], case['N'], seed + 31337, case['style'], pd).clone().requires_grad_(True)
+        loss = kmodel.loss_of(m(x), seed + 5, case['N'])
+        torch.autograd.grad(loss, x, allow_unused=True)
+        m.train()
+
+
+def _kfac_only_run(case, program, kw, with_mid_eval=True):
     """Model + K-FAC only (no twin, no checks): post-step gradients of every train op and the final factors."""
     import torch
     from kfac.preconditioner import KFACPreconditioner
@@ -70,6 +87,8 @@ def _kfac_only_run(case, program, kw):
             if case.get('mem_format') == 'channels_last':
                 x = x.contiguous(memory_format=torch.channels_last) if x.dim() == 4 else x.transpose(-1, -2).contiguous().transpose(-1, -2)
             (kmodel.loss_of(model(x), op['seed'] + 1 + micro, case['N']) * scale).backward()
+            if train and with_mid_eval and op.get('eval_mid') is not None and op['eval_mid'] % accum == micro:
+                _mid_eval([model], case, op['seed'], pd)
         if not train:
             continue
         for p in model.parameters():
@@ -91,7 +110,7 @@ class C10(Prop):
     rule = ('Hypothesis draws a runnable model of 1-4 supported layers interleaved with unsupported trainable modules (LayerNorm, BatchNorm2d, '
             'an affine module), contiguous or dense non-contiguous batches (channels_last for 4-d inputs, transposed storage otherwise), residual blocks x + fn(x) around registered Linear/Conv2d layers, wholly or partly frozen layers, 0-2 skip '
             'patterns (names and class names), parameter dtype float32/float64/bfloat16, factor and inverse dtypes, both methods, optional loss '
-            'scale with grad_scaler, accumulation_steps 1-3, and a sequence of eval passes and 1-3 train steps. Oracle: around every step() all parameters and buffers '
+            'scale with grad_scaler, accumulation_steps 1-3, and a sequence of eval passes and 1-3 train steps, some with an eval-mode forward + input-gradient pass in the middle of the iteration (between micro-batches or between the last backward and step()). Oracle: around every step() all parameters and buffers '
             'bit-identical, gradients of parameters outside the registered layers bit-identical (None stays None), registered gradients keep '
             'shape, dtype, device, contiguity and are finite; around eval-mode forward/backward passes state_dict(), memory_usage() and steps '
             'unchanged, and the same history without the eval passes gives bit-identical post-step gradients and final factors; outputs and autograd gradients bit-identical to a twin model without K-FAC (fed its own copy of the batch) in every pass, the batch itself left unmodified and no pass failing only with K-FAC registered. Non-trivial: >= 1 registered '
@@ -100,8 +119,8 @@ class C10(Prop):
                    'bit-identity with the twin relies on deterministic CPU kernels (torch.use_deterministic_algorithms is not required for these ops)']
     examples = {'quick': 400, 'thorough': 1200}
     shards = {'quick': 4, 'thorough': 16}
-    required_labels = {'quick': ['nontrivial=True', 'param_dtype=bfloat16', 'param_dtype=float64', 'residual=True', 'frozen=True', 'skipped=True', 'mem_format=channels_last', 'factor_dtype_is_param_dtype=True'],
-                       'thorough': ['nontrivial=True', 'param_dtype=bfloat16', 'param_dtype=float64', 'residual=True', 'frozen=True', 'skipped=True', 'mem_format=channels_last', 'factor_dtype_is_param_dtype=True']}
+    required_labels = {'quick': ['nontrivial=True', 'param_dtype=bfloat16', 'param_dtype=float64', 'residual=True', 'frozen=True', 'skipped=True', 'mem_format=channels_last', 'factor_dtype_is_param_dtype=True', 'mid_iteration_eval=True'],
+                       'thorough': ['nontrivial=True', 'param_dtype=bfloat16', 'param_dtype=float64', 'residual=True', 'frozen=True', 'skipped=True', 'mem_format=channels_last', 'factor_dtype_is_param_dtype=True', 'mid_iteration_eval=True']}
 
     def strategy(self, tier):
         return _case()
@@ -157,7 +176,7 @@ class C10(Prop):
         scale = case['loss_scale'] or 1.0
         accum = case.get('accum', 1)
         unreg_trainable = any(p.requires_grad for n, p in model.named_parameters() if n not in reg_params)
-        saw_eval = False
+        saw_eval = saw_mid_eval = False
         for i, op in enumerate(case['program']):
             train = op['op'] == 'train'
             saw_eval |= not train
@@ -195,6 +214,16 @@ class C10(Prop):
                       d = (a.float() - b.float()).abs().max().item() if a is not None and b is not None else float('nan')
                       return violation(f'op {i} {op}: autograd gradient of {n1} differs from the twin without K-FAC (max abs diff {d:.3e}; '
                                        f'loss_scale={case["loss_scale"]}, residual={has_res})', 'autograd-changed', labels=labels)
+              if train and op.get('eval_mid') is not None and op['eval_mid'] % accum == micro:
+                  saw_eval = saw_mid_eval = True
+                  sdm0 = pre.state_dict()['layers']
+                  _mid_eval([model, twin], case, op['seed'], pd)
+                  sdm1 = pre.state_dict()['layers']
+                  for n in sdm0:
+                      for f in ('A', 'G'):
+                          a, b = sdm0[n][f], sdm1[n][f]
+                          if (a is None) != (b is None) or (a is not None and not torch.equal(a, b)):
+                              return violation(f'op {i}: an eval-mode pass after micro-batch {micro} of the iteration changed factor {f} of {n}', 'eval-changed-state', labels=labels)
             if not train:
                 sd1 = pre.state_dict()
                 if pre.steps != st0 or dict(pre.memory_usage()) != mem0:
@@ -255,7 +284,7 @@ class C10(Prop):
             # batch statistics): the same history with the eval passes removed must give bit-identical gradients and factors
             try:
                 g1, f1, s1 = _kfac_only_run(case, case['program'], kw)
-                g2, f2, s2 = _kfac_only_run(case, [o for o in case['program'] if o['op'] == 'train'], kw)
+                g2, f2, s2 = _kfac_only_run(case, [o for o in case['program'] if o['op'] == 'train'], kw, with_mid_eval=False)
             except torch.linalg.LinAlgError:
                 g1 = g2 = f1 = f2 = s1 = s2 = None
             if g1 is not None:
@@ -274,6 +303,7 @@ class C10(Prop):
                             return violation(f'factor {k} of {n} at the end differs between the history with eval-mode passes and the same history '
                                              f'without them (accumulation_steps={accum}, in_hook={case["in_hook"]})', 'eval-changed-state', labels=labels)
         labels['accum'] = accum
+        labels['mid_iteration_eval'] = saw_mid_eval
         nt = bool(registered) and unreg_trainable and (labels['skipped'] or labels['frozen'] or case['param_dtype'] != 'float32' or saw_eval or has_res)
         labels['nontrivial'] = nt
         return passed(nt, labels)
